@@ -341,9 +341,9 @@ func (fc *funcContext) translateExpr(expr ast.Expr) *expression {
 				case token.REM:
 					return fc.formatExpr("$div64(%e, %e, true)", e.X, e.Y)
 				case token.SHL:
-					return fc.formatExpr("$shiftLeft64(%e, %f)", e.X, e.Y)
+					return fc.formatExpr("$shiftLeft64(%e, %s)", e.X, fc.shiftCount(e.Y))
 				case token.SHR:
-					return fc.formatExpr("$shiftRight%s(%e, %f)", toJavaScriptType(basic), e.X, e.Y)
+					return fc.formatExpr("$shiftRight%s(%e, %s)", toJavaScriptType(basic), e.X, fc.shiftCount(e.Y))
 				case token.EQL:
 					return fc.formatExpr("(%1h === %2h && %1l === %2l)", e.X, e.Y)
 				case token.LSS:
@@ -433,10 +433,10 @@ func (fc *funcContext) translateExpr(expr ast.Expr) *expression {
 					return fc.fixNumber(fc.formatExpr("%e %s %s", e.X, op, strconv.FormatUint(i, 10)), basic)
 				}
 				if e.Op == token.SHR && !isUnsigned(basic) {
-					return fc.fixNumber(fc.formatParenExpr("%e >> $min(%f, 31)", e.X, e.Y), basic)
+					return fc.fixNumber(fc.formatParenExpr("%e >> $min(%s, 31)", e.X, fc.shiftCount(e.Y)), basic)
 				}
 				y := fc.newLocalVariable("y")
-				return fc.fixNumber(fc.formatExpr("(%s = %f, %s < 32 ? (%e %s %s) : 0)", y, e.Y, y, e.X, op, y), basic)
+				return fc.fixNumber(fc.formatExpr("(%s = %s, %s < 32 ? (%e %s %s) : 0)", y, fc.shiftCount(e.Y), y, e.X, op, y), basic)
 			case token.AND, token.OR:
 				if isUnsigned(basic) {
 					return fc.formatParenExpr("(%e %t %e) >>> 0", e.X, e.Op, e.Y)
@@ -931,6 +931,17 @@ func (fc *funcContext) delegatedCall(expr *ast.CallExpr) (callable *expression, 
 	callable = fc.formatExpr("function(%s) { %e; }", strings.Join(vars, ", "), wrapper)
 	arglist = fc.formatExpr("[%s]", strings.Join(args, ", "))
 	return callable, arglist
+}
+
+// shiftCount translates the count operand of a shift into a JavaScript number. A count of a signed type that is
+// negative at run time causes a run-time panic, as the Go specification requires.
+func (fc *funcContext) shiftCount(y ast.Expr) *expression {
+	if fc.pkgCtx.Types[y].Value == nil {
+		if b, ok := fc.typeOf(y).Underlying().(*types.Basic); ok && isInteger(b) && !isUnsigned(b) {
+			return fc.formatExpr("$shiftCount(%f)", y)
+		}
+	}
+	return fc.formatExpr("%f", y)
 }
 
 func (fc *funcContext) makeReceiver(e *ast.SelectorExpr) *expression {
